@@ -91,8 +91,8 @@ def run(ctx):
             ctx.check(kinds.get(want, 0) >= 1, "R01.1", fn, "class-present:" + want, "no iteration path of the token loop handles a %s token any more" % want, fn)
         # appends outside the token loop: reuse C12's limit discipline (a tail loop must not drop tokens silently)
         lst = pl.positionals
-        lim_eq = ("a", "(%s.size() == this.allowed_positionals_)" % lst)
-        lim_lt = ("a", "(%s.size() < this.allowed_positionals_)" % lst)
+        lim_eq = ("a", "(%s.size() == this.allowed_positionals_)" % pl.positionals_atom)
+        lim_lt = ("a", "(%s.size() < this.allowed_positionals_)" % pl.positionals_atom)
         for bid2, i2, e2 in fn.roots():
             if bid2 in pl.body or bid2 not in pl.IN:
                 continue
